@@ -4,7 +4,9 @@ import (
 	"container/heap"
 	crand "crypto/rand"
 	"encoding/binary"
+
 	"fmt"
+	"github.com/twmb/franz-go/pkg/kbin"
 	"hash/fnv"
 	"math/rand"
 	"os"
@@ -74,6 +76,9 @@ type Sim struct {
 	OnWritten []func(*WireReq)
 	// Mutate lets a scenario (C21/C22) rewrite raw response frames.
 	Mutate func(c *Conn, ri *reqInfo, frame []byte) (out [][]byte, kill bool)
+	// RewriteReq may return a replacement for a request before it reaches
+	// the broker (nil: unchanged)
+	RewriteReq func(*WireReq) kmsg.Request
 
 	Invariants []func()
 
@@ -937,6 +942,27 @@ func (s *Sim) deliverReq(c *Conn, h *half, f *frame, now time.Time) {
 	if !ri.noResp {
 		c.setOutstanding(corr, ri)
 		c.order = append(c.order, corr)
+	}
+	if s.RewriteReq != nil && wr.Req != nil {
+		// the environment may change a request on its way (another client
+		// implementation, state the client itself no longer produces); the
+		// monitors see what the broker sees
+		if nreq := s.RewriteReq(wr); nreq != nil {
+			wr.Req = nreq
+			buf := []byte{0, 0, 0, 0}
+			buf = kbin.AppendInt16(buf, key)
+			buf = kbin.AppendInt16(buf, ver)
+			buf = kbin.AppendInt32(buf, corr)
+			buf = kbin.AppendNullableString(buf, &cid)
+			if nreq.IsFlexible() {
+				buf = append(buf, 0)
+			}
+			buf = nreq.AppendTo(buf)
+			binary.BigEndian.PutUint32(buf, uint32(len(buf)-4))
+			f.data = buf
+			wr.Raw = buf
+			s.Count("env.request_rewritten", 1)
+		}
 	}
 	for _, fn := range s.OnReq {
 		fn(wr)
